@@ -871,7 +871,6 @@ func (st *tunnelClientStream) finishStream(err error, trailers metadata.MD) bool
 	}
 	defer st.cancel()
 	st.ch.removeStream(st.streamID)
-	st.receiver.close()
 	verifYield("client.finish.beforeTrailers")
 
 	st.metaMu.Lock()
@@ -886,6 +885,10 @@ func (st *tunnelClientStream) finishStream(err error, trailers metadata.MD) bool
 		close(st.gotHeadersSignal)
 	}
 	close(st.doneSignal)
+
+	// Only wake up readers after the trailers have been published: a reader
+	// that observes the end of the stream must be able to see them.
+	st.receiver.close()
 
 	return true
 }
